@@ -113,9 +113,12 @@ def _check(ctx, case):
     ths = dist.ram_ths(samples=traces, plaintext=pts, ciphertext=cts, key=np.tile(key, (N, 1)), **decoys)
     cont = scared.Container(ths)
     mod = getattr(aes_sf if cipher == 'aes' else des_sf, ns)
-    sf = getattr(mod, cls)(words=words if attack not in ('tdpa',) else words[0])
+    if case.get('asked_before'):
+        ns2, cls2 = case['asked_before'].split('.')
+        must(case, 'compute_expected_key of %s' % case['asked_before'], getattr(getattr(aes_sf if cipher == 'aes' else des_sf, ns2), cls2)().compute_expected_key, key=key.copy())
+    sf = getattr(mod, cls)(words=(np.array(words) if case.get('words_as_array') else list(words)) if attack not in ('tdpa',) else words[0])
     labels = ['cipher:%s' % cipher, 'attack:' + attack, 'target:%s.%s' % (cipher, name), 'model:' + case['model'], 'keysize:%d' % len(key), 'batch:%s' % (case['batch_size'] or 'default'), 'prec:' + case['precision'],
-              'offset:%g' % case.get('offset', 0.0), 'convergence_step:%s' % (case.get('convergence_step') or 'none')] + (['constant_sample'] if case.get('const_sample') else []) + (['decoy_data_field'] if case.get('decoy_data') else []) + (['partial_partitions'] if case.get('partial_partitions') and attack in ('anova', 'nicv', 'snr') and case['model'] == 'hw' else [])
+              'offset:%g' % case.get('offset', 0.0), 'convergence_step:%s' % (case.get('convergence_step') or 'none')] + (['words_not_ascending'] if words != sorted(words) else []) + (['other_expected_key_asked_before'] if case.get('asked_before') else []) + (['constant_sample'] if case.get('const_sample') else []) + (['decoy_data_field'] if case.get('decoy_data') else []) + (['partial_partitions'] if case.get('partial_partitions') and attack in ('anova', 'nicv', 'snr') and case['model'] == 'hw' else [])
     nclass = {'hw': (9 if cipher == 'aes' else (7 if 'AddRoundKey' in name else 5)), 'value': (256 if cipher == 'aes' else 16)}.get(case['model'], 2)
     kw = dict(selection_function=sf, model=_scared_model(case), precision=case['precision'])
     if case.get('convergence_step') and attack != 'tstatic':
@@ -225,6 +228,7 @@ def cases(draw, cipher, attack):
     pts = g.integers(0, 256, size=(N, blk)).astype('uint8')
     nwords = draw(st.integers(2, 4)) if attack not in ('tdpa', 'tstatic') else 1
     words = sorted(int(v) for v in g.choice(nw, size=nwords, replace=False))
+    word_order = draw(st.sampled_from(['ascending', 'shuffled', 'permuted_run']))
     if attack == 'dpa':
         model = 'mono%d' % draw(st.integers(0, 7 if cipher == 'aes' else 3))
     elif attack in ('tdpa', 'tstatic'):
@@ -246,13 +250,36 @@ def cases(draw, cipher, attack):
         # induce the same partition of the traces by VALUE and every partition statistic ties them (found by the thorough tier on the unchanged tree)
         if 3 in words:
             words = sorted([w for w in words if w != 3] + [min(v for v in range(8) if v != 3 and v not in words)])
+    if word_order == 'permuted_run' and len(words) >= 2:
+        # consecutive words, smallest first and largest last, the ones in between in any order (column j of the results belongs to words[j])
+        banned = set()
+        if cipher == 'des' and attack == 'dpa' and model == 'mono2':
+            banned.add(1)
+        if cipher == 'des' and model == 'value' and attack != 'tstatic':
+            banned.add(3)
+        ln = max(3, len(words))
+        starts = [s0 for s0 in range(0, nw - ln + 1) if not (set(range(s0, s0 + ln)) & banned)]
+        if starts:
+            s0 = starts[int(g.integers(0, len(starts)))]
+            inner = list(range(s0 + 1, s0 + ln - 1))
+            g.shuffle(inner)
+            if ln >= 4 and inner == sorted(inner):
+                inner = inner[::-1]
+            words = [s0] + [int(v) for v in inner] + [s0 + ln - 1]
+            if ln == 3:
+                words = [s0 + 1, s0, s0 + 2] if draw(st.booleans()) else [s0, s0 + 2, s0 + 1]
+    elif word_order == 'shuffled':
+        words = [int(v) for v in g.permutation(words)]
     disc = 'nanmax' if is_ark else draw(st.sampled_from(['maxabs', 'nanmax'])) if attack not in ('dpa',) else 'maxabs'
     case = {'kind': 'attack', 'cipher': cipher, 'attack': attack, 'target': target, 'key': key, 'plaintexts': pts, 'words': words, 'model': model, 'discriminant': disc,
             'precision': draw(st.sampled_from(['float32', 'float64'])), 'tdtype': draw(st.sampled_from(['float32', 'float64'])),
             'batch_size': draw(st.sampled_from([0, 0, 100, 37, 300])), 'noise_seed': draw(st.integers(0, 2 ** 32)),
             'offset': draw(st.sampled_from([0.0, 0.0, 3.0, 20.0])), 'convergence_step': draw(st.sampled_from([0, 0, 50, 100, 120])),
             'const_sample': draw(st.booleans()) and attack in ('cpa', 'anova', 'nicv', 'snr', 'dpa'),
-            'decoy_data': draw(st.booleans()), 'partial_partitions': draw(st.booleans())}
+            'decoy_data': draw(st.booleans()), 'partial_partitions': draw(st.booleans()),
+            'words_as_array': draw(st.booleans()),
+            # another ready-made selection function of the same cipher is asked for its expected key, with the same master key, beforehand
+            'asked_before': draw(st.sampled_from([''] + (AES_TARGETS + AES_ARK if cipher == 'aes' else DES_TARGETS + DES_ARK)))}
     if attack == 'tdpa':
         case['profiling_plaintexts'] = g.integers(0, 256, size=(600, blk)).astype('uint8')
     return case
